@@ -56,6 +56,7 @@ type FuncContract struct {
 	Trusts     []*Clause
 	Yields     []*Clause
 	Hints      []ObligHint
+	AtCalls    []AtCall
 	Exhausts   []*Clause
 }
 
@@ -123,7 +124,13 @@ type ObligHint struct {
 	Uses []string
 }
 
-var subKeywords = map[string]bool{"hint": true, "props": true, "requires": true, "ensures": true, "modifies": true, "loop": true, "inline": true, "trusted": true, "flag": true, "pure": true, "ghost": true, "trusts": true, "yields": true, "exhausts": true}
+// AtCall: a caller-side obligation at the call sites whose callee matches Pat.
+type AtCall struct {
+	Pat    *regexp.Regexp
+	Clause *Clause
+}
+
+var subKeywords = map[string]bool{"atcall": true, "hint": true, "props": true, "requires": true, "ensures": true, "modifies": true, "loop": true, "inline": true, "trusted": true, "flag": true, "pure": true, "ghost": true, "trusts": true, "yields": true, "exhausts": true}
 
 // GhostAssign: `ghost x.f := expr` — ghost update performed at function exit (ghost state is never read by
 // executable code, so deferring all ghost updates to the exit is equivalent to performing them in place).
@@ -334,6 +341,25 @@ func (cs *Contracts) loadFile(path string, pkgPath string, isExternFile bool) er
 				return fail(l, "ghost assignment target must be a ghost field x.f")
 			}
 			cur.Ghost = append(cur.Ghost, &GhostAssign{Target: te, Value: ve, Src: rest, File: l.file, Line: l.line})
+		case "atcall":
+			// atcall <callee regexp> requires #name [props]: expr
+			// an obligation of THIS function at each of its call sites whose callee matches: expr is evaluated in
+			// the caller's state just before the call and may mention the caller's locals (an in-body assertion
+			// anchored to what is called, not to a line number)
+			f2 := strings.Fields(rest)
+			if len(f2) < 3 || f2[1] != "requires" {
+				return fail(l, "atcall <callee regexp> requires #name: expr")
+			}
+			re, err := regexp.Compile(f2[0])
+			if err != nil {
+				return fail(l, "%v", err)
+			}
+			ctext := strings.TrimSpace(rest[strings.Index(rest, "requires")+len("requires"):])
+			c, err := parseClause(ctext, l)
+			if err != nil {
+				return fail(l, "%v", err)
+			}
+			cur.AtCalls = append(cur.AtCalls, AtCall{Pat: re, Clause: c})
 		case "hint":
 			// hint <obligation-name regexp> uses(a, b, ...): proof-slicing hint for obligations of this function
 			// that do not stem from one of its own clauses (call-site preconditions, safety checks)
